@@ -15,8 +15,8 @@ REGISTRY = {
     'C11': {'gen': comp.gen_C11, 'once': sizes.sweep_C11},
     'C12': {'gen': comp.gen_C12, 'once': sizes.sweep_C12},
     'C13': {'gen': comp.gen_C13, 'once': sizes.sweep_C12},
-    'C14': {'gen': comp.gen_C14, 'once': sizes.sweep_C14},
-    'C15': {'gen': comp.gen_C15, 'once': sizes.sweep_C14},
+    'C14': {'gen': comp.gen_C14, 'once': lambda tier: sizes.sweep_C14(tier) + comp.oracle_progs(tier, with_bp=False), 'extra': comp.extra_oracle('value')},
+    'C15': {'gen': comp.gen_C15, 'once': lambda tier: sizes.sweep_C14(tier) + comp.oracle_progs(tier), 'extra': comp.extra_oracle('grad')},
     'C16': {'gen': comp.gen_C16, 'once': sizes.sweep_C16},
     'C17': {'gen': comp.gen_C17, 'once': sizes.sweep_C17},
     'C18': {'gen': rnd.gen_C18, 'extra': rnd.extra_C18, 'once': sizes.sweep_C18},
